@@ -31,7 +31,10 @@ Lemma cast_reduced n1 d1 n2 d2 c :
 Proof.
   intros Ha Hb. destruct (factor_facts _ _ _ _ Ha Hb) as (Hg & Ea & Eb & Hcn & Hcd).
   unfold cast_spec.
-  replace (c * n1 * d2) with (c * (n1 * d2)) by ring. rewrite Ea, Eb. rewrite Z.mul_assoc.
+  set (cn := factor_num n1 d1 n2 d2) in *. set (cd := factor_den n1 d1 n2 d2) in *.
+  set (g := Z.gcd (n1 * d2) (d1 * n2)) in *.
+  replace (c * n1 * d2) with (c * cn * g) by (rewrite <- (Z.mul_assoc c cn g), <- Ea; ring).
+  replace (d1 * n2) with (cd * g) by (symmetry; exact Eb).
   apply Z.quot_mul_cancel_r; lia.
 Qed.
 
